@@ -44,6 +44,7 @@ func c05Base(r *rand.Rand, kind string, mapKind string) *Scenario {
 func checkC05(ctx *Ctx, sc *Scenario) {
 	interfered := 0
 	var lastMidCycle = -10
+	var lastFailCycle = -10
 	prevDevAfter := -1
 	runScenario(ctx, sc, func(w *World, rec *CycleRecord) bool {
 		ctx.Eval(1)
@@ -54,6 +55,13 @@ func checkC05(ctx *Ctx, sc *Scenario) {
 		}
 		if rec.Err != nil || !rec.HasRequest {
 			return true
+		}
+		if rec.Step.CmdFail {
+			// every call of the tool failed during this cycle: nothing is demanded of it, and - the writes not having
+			// succeeded - nothing of the counter in the cycle that follows
+			lastFailCycle = rec.Idx
+			ctx.Count("cycles_in_which_every_call_of_the_tool_failed", 1)
+			return false
 		}
 		if rec.MidApplied {
 			lastMidCycle = rec.Idx
@@ -90,7 +98,7 @@ func checkC05(ctx *Ctx, sc *Scenario) {
 		if it != nil && it.Unreadable {
 			// fan2go cannot see the change in this cycle (it must put the fan right all the same); nothing is demanded of the counter
 			ctx.Count("interferences_while_the_pwm_cannot_be_read", 1)
-		} else if rec.HadPrev && prevDevAfter >= 0 && lastMidCycle != rec.Idx-1 {
+		} else if rec.HadPrev && prevDevAfter >= 0 && lastMidCycle != rec.Idx-1 && lastFailCycle != rec.Idx-1 {
 			// what fan2go had set is what the device held after the previous complete cycle
 			// (checked there to be a map output of a nearest supported input)
 			prevWant := []int{prevDevAfter}
@@ -194,8 +202,13 @@ func init() {
 			traj := genCurveTrajectory(r, 30, false)
 			for k := 0; k < 30; k++ {
 				st := CycleStep{Curve: traj[k], DtMs: 200, Polls: 1}
-				if k > 2 && r.Intn(5) == 0 {
-					st.Intrude = &Intrusion{Pwm: iptr(r.Intn(256)), Unreadable: r.Intn(2) == 0}
+				if k > 4 && r.Intn(8) == 0 && sc.Steps[k-1].Intrude == nil {
+					// the tool is busy for one whole cycle (another program holds the device) ...
+					sc.Steps[k-1].CmdFail = true
+				}
+				if k > 2 && r.Intn(5) == 0 && !sc.Steps[k-1].CmdFail || k > 2 && sc.Steps[k-1].CmdFail && r.Intn(2) == 0 {
+					// ... and in half of those cases that program has changed the PWM when the next cycle begins
+					st.Intrude = &Intrusion{Pwm: iptr(r.Intn(256)), Unreadable: r.Intn(2) == 0 && !sc.Steps[k-1].CmdFail}
 					if r.Intn(3) > 0 {
 						// the target has been the same for two quiet cycles and stays the same
 						sc.Steps[k-1].Curve = sc.Steps[k-2].Curve
